@@ -14,7 +14,8 @@ import Tup.Lemmas.TrkExample
   raw chunks through the tokenizer `Tup.parse`.  This equals tokenizing the concatenated byte
   stream `bytesOf written` whenever no `write()` argument / placeholder line ends inside a control
   function — which the property needs anyway: after `write(b"\x1b[")` no library could know how the
-  terminal reads the next bytes.  The whole-stream form is kept below as a comment.
+  terminal reads the next bytes.  `tracked_sound_bytes` is the whole-stream form under exactly that
+  hypothesis.
 
   Hypotheses, all about inputs and the terminal, none about the history:
   * `1 ≤ w`, `1 ≤ h`;
@@ -93,17 +94,18 @@ theorem margins_flag_sound (w h : Nat) (hw : 1 ≤ w) (hh : 1 ≤ h) (cfg : Term
   rw [hI.th] at this
   exact this
 
-/-
-  Whole-stream form (not proved here): with `bytesOf (run w h cfg ops).2` the bytes written so far,
-
-    theorem tracked_sound_bytes … (hclosed : every raw chunk of the history leaves the tokenizer in
-        its ground state) (hp : (run w h cfg ops).1.tracked = some p) :
-      p = cursor ((parse (bytesOf (run w h cfg ops).2)).foldl Term.feedP (Term.init w h cfg))
-
-  follows from `tracked_sound` and `parse (bytesOf cs) = cs.flatMap chunkToks`, i.e. the round trip
-  `parse (t.serialize ++ rest) = t :: parse rest` for the emitted control functions (the shared
-  `Tup.Esc` round-trip theorem of DESIGN §4) — missing: fuel monotonicity of `parseAux`.
--/
+/-- **tracked_sound, on the byte stream.**  The same about the bytes written so far, read by the
+    terminal as one stream: it needs in addition that no raw input (a `write`/`writecmd` argument, a
+    placeholder line, a graphics command) ends inside a control function (`Closed`: the tokenizer is
+    back in its ground state, so what follows is read independently).  The control functions the
+    tracker itself writes are shown to be read back as themselves (`Tup.trkTok_parse`). -/
+theorem tracked_sound_bytes (w h : Nat) (hw : 1 ≤ w) (hh : 1 ≤ h) (cfg : TermCfg) (hcfg : cfg.cprClamps = false)
+    (ops : List Op) (hops : ∀ op ∈ ops, op.WF) (hraw : ∀ op ∈ ops, op.RawClosed) (p : Int × Int)
+    (hp : (run w h cfg ops).1.tracked = some p) :
+    p = ((((parse (bytesOf (run w h cfg ops).2)).foldl Term.feedP (Term.init w h cfg)).cx : Int),
+         (((parse (bytesOf (run w h cfg ops).2)).foldl Term.feedP (Term.init w h cfg)).cy : Int)) := by
+  rw [feedBytes_eq _ (run_ok w h cfg ops hraw)]
+  exact tracked_sound w h hw hh cfg hcfg ops hops p hp
 
 /-! ### non-vacuity: a history that satisfies the hypotheses, leaves the position known, and
     exercises the scroll + right-edge branch of the forced-placeholder put -/
@@ -118,6 +120,15 @@ example : ∀ op ∈ demo, op.WF := by
   · trivial
   · trivial
   · exact xPut_WF 3 9 false
+  · trivial
+
+example : ∀ op ∈ demo, op.RawClosed := by
+  intro op h
+  simp only [demo, List.mem_cons, List.mem_nil_iff, or_false] at h
+  rcases h with h | h | h | h <;> subst h
+  · trivial
+  · trivial
+  · exact xPut_closed 3 9 false
   · trivial
 
 example : (run 10 5 {} demo).1.tracked = some (0, 3) := by decide +kernel
